@@ -26,15 +26,15 @@ def run(tier, seed=0):
     n4 = vprules.check_points(prog, res, "R16.4-points-validated", FILES, POINT_LEVELS, ALTERNATIVES, default="field")
     M = vprules.check_must
     M(prog, res, "R16.5-accept-only-verified", "bign96Verify",
-      [("s1 < q", FACT("lt", r"order$")), ("hash comparison", ANY(T("beltHashStepV2("), T("memEq("))),
+      [("s1 < q", FACT("ltc", r"order$")), ("hash comparison", ANY(T("beltHashStepV2("), T("memEq("))),
        ("public key coordinates reduced (qrFrom x2)", nfield(2))])
     M(prog, res, "R16.5-accept-only-verified", "g12sVerify",
       [("r != 0 and s != 0", lambda fs: sum(1 for x in fs if x[0] == "nz") >= 2),
-       ("r < q and s < q", lambda fs: sum(1 for x in fs if x[0] == "lt" and x[2].endswith("order")) >= 2),
+       ("r < q and s < q", lambda fs: sum(1 for x in fs if x[0] == "ltc" and x[2].endswith("order")) >= 2),
        ("r == x_R mod q (wwEq)", T("wwEq(")), ("public key coordinates reduced (qrFrom x2)", nfield(2))])
     M(prog, res, "R16.5-accept-only-verified", "dstuVerify",
       [("r != 0 and s != 0", lambda fs: sum(1 for x in fs if x[0] == "nz") >= 2),
-       ("r < n and s < n", lambda fs: sum(1 for x in fs if x[0] == "lt" and x[2].endswith("order")) >= 2),
+       ("r < n and s < n", lambda fs: sum(1 for x in fs if x[0] == "ltc" and x[2].endswith("order")) >= 2),
        ("r == recomputed r (wwEq)", T("wwEq(")), ("public key coordinates reduced (qrFrom x2)", nfield(2))])
     M(prog, res, "R16.5-accept-only-verified", "bign96PubkeyVal",
       [("coordinates reduced (qrFrom x2)", nfield(2)), ("on-curve test", ANY(FACT("oncurve", r"."), T("ecpIsOnA(")))])
